@@ -562,6 +562,12 @@ def suite_real_lifecycle(report, tier, seed, prop="C12"):
                ("drv.run kind=threaded v=5 idle=500 backoff=300 maxbackoff=300 ctimeout=150 refuse=100000 | start;sleep:250;close;start;sleep:1200;mark:settled;sleep:400", "threaded", "close-terminal"),
                ("drv.run kind=threaded v=5 idle=500 cdelay=200 backoff=300 ctimeout=1000 | start;sleep:50;close;start;sleep:900;mark:settled;sleep:150", "threaded", "close-terminal"),
                ("drv.run kind=tokio v=5 backoff=300 maxbackoff=300 ctimeout=150 refuse=100000 | start;sleep:250;close;start;sleep:1200;mark:settled;sleep:400", "tokio", "close-terminal")]
+    # a transport whose flush or shutdown never completes (a layered stream under back-pressure whose peer stopped
+    # reading): the client must stay responsive - the establishment deadline still fires, a stop still stops
+    corpus += [("drv.run kind=tokio v=5 fplan=w ctimeout=200 backoff=50 | start;sleep:700;stop;sleep:400;mark:settled;sleep:150", "tokio", "flush-stall"),
+               ("drv.run kind=tokio v=5 fplan=w answer=0 ctimeout=200 backoff=50 | start;sleep:700;stop;sleep:400;mark:settled;sleep:150", "tokio", "flush-stall"),
+               ("drv.run kind=tokio v=5 shutdown=stall answer=0 ctimeout=200 backoff=50 | start;sleep:700;stop;sleep:400;mark:settled;sleep:150", "tokio", "shutdown-stall"),
+               ("drv.run kind=threaded v=5 fplan=w answer=0 ctimeout=200 backoff=50 | start;sleep:700;stop;sleep:400;mark:settled;sleep:150", "threaded", "flush-stall")]
     cases = corpus + cases
     impl = harness_batch_parallel([c[0] for c in cases])
     mon_ok = True
